@@ -204,6 +204,15 @@ class RecTrans(RecReg, TransformerMixin):
         return self.predict(X).reshape((-1, 1))
 
 
+class RecRegFP(RecReg):
+    """RecReg that also has fit_predict (as clusterers and outlier detectors do), answering something ELSE than
+    fit followed by predict: a wrapper asked for `predict` must not be served by it"""
+
+    def fit_predict(self, X, y=None, sample_weight=None):
+        self.fit(X, y, sample_weight)
+        return numpy.full((numpy.asarray(X).shape[0],), -1.0)
+
+
 class RecTransU(RecReg, TransformerMixin):
     """unsupervised stub transformer: fit(X, y=None, sample_weight=None) records the rows and weights it gets (no
     targets), transform returns the row id in one column"""
